@@ -1,5 +1,6 @@
 """C13 - peer messages round-trip through the wire format and decoding is total (structural part: table agreement, TLV rules, varint boundaries)."""
 from engine import *
+import provenance
 import tlv, tlvloop
 
 W = 'lightning::ln::wire::'
@@ -355,6 +356,43 @@ def r13h(F):
 			ok = any(dep)
 			short = cn.split(' as ')[0].rsplit('::', 1)[-1].strip('<>')
 			out.append(Result('13.h', ok, ('ok:' if ok else 'overread:') + 'chunk-bounded-by-remaining@' + short, '%s: the chunk size min(%s) %s' % (short, ', '.join(leaf_key(a)[:40] for a in args), 'shrinks with the loop\'s progress' if ok else 'does not depend on how much was already read: the last chunk reads past the declared length (ShortRead / bytes of the next field swallowed)'), 1, where=F.where(cn, fu.line_of(b))))
+	# the buffer slice handed to read_exact inside such a loop is exactly one chunk long: end - start == the chunk size (min(..)).
+	# `buf[idx..chunk]` (instead of `buf[idx..idx + chunk]`) is right for the first chunk only
+	m2 = 0
+	for cn in sorted(cands):
+		try:
+			fu = F.func(cn)
+		except AnchorMissing:
+			continue
+		ex = Expr(fu)
+		for b, ci in fu.calls():
+			if not norm(ci.get('f') or ci.get('t') or '').endswith('read_exact') or len(ci['args']) < 2:
+				continue
+			if b not in fu.reach(fu.succ(b)):
+				continue
+			e = ex.of_operand(ci['args'][1])
+			while e[0] in ('ref', 'deref'):
+				e = e[1]
+			if not (e[0] == 'call' and (e[1] or '').endswith('index_mut') and len(e[2]) == 2):
+				continue
+			rng = e[2][1]
+			if rng[0] != 'agg' or rng[2] not in ('Range', 'RangeTo'):
+				continue
+			start = rng[3][0] if rng[2] == 'Range' else ('const', 0, None, 'usize')
+			end = rng[3][1] if rng[2] == 'Range' else rng[3][0]
+			ts, ks = linear(start)
+			te, ke = linear(end)
+			diff = dict(te)
+			for v, c in ts.items():
+				diff[v] = diff.get(v, 0) - c
+				if diff[v] == 0:
+					del diff[v]
+			m2 += 1
+			short = cn.split(' as ')[0].rsplit('::', 1)[-1].strip('<>')
+			ok = ke - ks == 0 and len(diff) == 1 and list(diff.values()) == [1] and list(diff)[0].startswith('min(')
+			out.append(Result('13.h', ok, ('ok:' if ok else 'slice:') + 'chunk-slice-is-one-chunk@' + short, '%s: read_exact fills buffer[%s .. %s]: its length is %s (expected exactly the chunk size min(..))' % (short, expr_str(start)[:40], expr_str(end)[:60], ' '.join(('%+d*' % c) + v[:50] for v, c in diff.items()) or str(ke - ks)), 1, where=F.where(cn, fu.line_of(b))))
+	if m2 < 2:
+		out.append(Result('13.h', False, 'floor:chunk-slices', 'only %d ranged read_exact buffers in read loops found (expected >= 2: onion-message packet, OnchainTxHandler)' % m2, m2))
 	if n < 3:
 		out.append(Result('13.h', False, 'floor:chunked-read-loops', 'only %d chunked read loops found (expected >= 3: Vec<u8>, onion-message packet, OnchainTxHandler)' % n, n))
 	return out
@@ -393,4 +431,5 @@ RULES = [
 	('13.h', 'chunked read loops: the chunk size is bounded by what remains (depends on loop progress)', r13h),
 	('13.i', 'address descriptors: unknown-type is reported only when nothing but the type byte was consumed', r13i),
 	('13.d', 'BigSize / CollectionLength: writer widths equal reader minimality thresholds; non-minimal forms rejected', r13d),
+	('13.w', 'no length / count is added to or multiplied in an 8/16-bit type and widened afterwards (wrap-around at the top of the range; rules/provenance.py)', lambda F: provenance.narrow_for_property(F, 'C13', '13.w')),
 ]
